@@ -240,6 +240,9 @@ pub fn zoo(tier: Tier) -> Vec<Entry> {
     z.push(e("saftvrmie:ethane+propane", ResidualModel::SaftVRMie(SaftVRMie::new(vrmie(&["ethane", "propane"]))), 2, 305.0, false));
     z.push(e("saftvrmie:methanol", ResidualModel::SaftVRMie(SaftVRMie::new(vrmie(&["methanol"]))), 1, 512.0, false));
     z.push(e("saftvrmie:ethane+methanol", ResidualModel::SaftVRMie(SaftVRMie::new(vrmie(&["ethane", "methanol"]))), 2, 305.0, true));
+    // two self-associating components: the iterative cross-association path of the SAFT-VR Mie copy of the solver, and a chain + sphere mixture
+    z.push(e("saftvrmie:methanol+1-butanol(cross)", ResidualModel::SaftVRMie(SaftVRMie::new(vrmie(&["methanol", "1-butanol"]))), 2, 512.0, true));
+    z.push(e("saftvrmie:methane+ethane+propane", ResidualModel::SaftVRMie(SaftVRMie::new(vrmie(&["methane", "ethane", "propane"]))), 3, 300.0, false));
     // ---- SAFT-VRQ Mie
     z.push(e("saftvrqmie:h2:fh1", ResidualModel::SaftVRQMie(SaftVRQMie::new(vrq(&["hydrogen"], "aasen2019", None))), 1, 33.0, true));
     z.push(e("saftvrqmie:h2:fh2", ResidualModel::SaftVRQMie(SaftVRQMie::new(vrq(&["hydrogen"], "aasen2019_fh2", None))), 1, 33.0, false));
